@@ -9,8 +9,12 @@ import Props.Family
 import Gen.Guards.Closable
 import Gen.Guards.Det
 import Gen.Guards.FillersOK
+import Gen.Guards.InlineUniform
+import Gen.Guards.JoinCompat
 import Gen.Guards.LabelsOK
 import Gen.Guards.LeafOk
+import Gen.Guards.ReopenOK
+import Gen.Guards.TextAbsorb
 import Gen.Guards.TextStable
 import Gen.Guards.TextStableC
 import Gen.Guards.WrapOK
@@ -108,7 +112,7 @@ theorem fit_emits_wf (S : Schema) (hS : S ∈ familySchemas) (doc : Node) (f t :
     doc f t sl hv hattrs hwf hft hrun st h
 
 /-- `PM.C11.coherent_invariant` with its schema guards discharged for the bundled schema family -/
-theorem coherent_invariant (S : Schema) (hS : S ∈ domFamilySchemas) :
+theorem coherent_invariant (S : Schema) (hS : S ∈ familySchemas) :
     (∀ (doc : Node) (f : Nat) (rf : RPos) (sl : Slice) (st0 : FitState), doc.resolve f = some rf →
     fitInit S rf sl = .ok st0 →
     Coh S rf.depth rf.depth st0.frontier 0 st0.frontier st0.placed ∧
@@ -121,9 +125,8 @@ theorem coherent_invariant (S : Schema) (hS : S ∈ domFamilySchemas) :
     Coh S D g base 0 st.frontier st.placed → fitLoopAll S (fun s => s.unplaced.wf) fuel st = some true →
     fitLoop S fuel st = .ok st' →
     InStep st' ∧ ∃ g', g' ≤ g ∧ Coh S D g' base 0 st'.frontier st'.placed ∧ st'.coherentB S D base = true) :=
-  PM.C11.coherent_invariant S (family_det _ (domFamily_sub _ hS)) (family_fillersOK _ (domFamily_sub _ hS))
-    (family_wrapOK _ (domFamily_sub _ hS)) (family_labelsOK _ (domFamily_sub _ hS))
-    (family_textStableC _ (domFamily_sub _ hS))
+  PM.C11.coherent_invariant S (family_det _ hS) (family_fillersOK _ hS) (family_wrapOK _ hS)
+    (family_labelsOK _ hS) (family_textStableC _ hS)
 
 /-- `PM.C11.inStep_invariant` with its schema guards discharged for the bundled schema family -/
 theorem inStep_invariant (S : Schema) (hS : S ∈ familySchemas) (st st' : FitState) (hin : InStep st)
@@ -185,37 +188,31 @@ theorem deleteRange_emits_payloadValid (S : Schema) (hS : S ∈ familySchemas) (
   PM.C11.deleteRange_emits_payloadValid S (family_det _ hS) (family_leafOk _ hS) doc f t hv hattrs st h
 
 /-- `PM.C11.insertInline_emits_valid_payload` with its schema guards discharged for the bundled schema family -/
-theorem insertInline_emits_valid_payload (S : Schema) (hS : S ∈ domFamilySchemas) (doc : Node) (f t : Nat)
+theorem insertInline_emits_valid_payload (S : Schema) (hS : S ∈ familySchemas) (doc : Node) (f t : Nat)
     (sl : Slice) (hsl : sl.inlineLeaves S = true) (hslv : sl.closedValid S = true) (hv : C01.Valid S doc)
     (hattrs : S.nodeAttrsOK doc = true) (st : Step) (h : replaceStep S doc f t sl = .ok (some st)) :
     ∃ sl', st.sliceOf = some sl' ∧ openValid S sl'.openStart sl'.openEnd sl'.content = true :=
-  PM.C11.insertInline_emits_valid_payload S (family_det _ (domFamily_sub _ hS))
-    (family_fillersOK _ (domFamily_sub _ hS)) (family_wrapOK _ (domFamily_sub _ hS))
-    (family_labelsOK _ (domFamily_sub _ hS)) (family_leafOk _ (domFamily_sub _ hS))
-    (family_textStableC _ (domFamily_sub _ hS)) (family_closable _ (domFamily_sub _ hS)) doc f t sl hsl hslv hv
-    hattrs st h
+  PM.C11.insertInline_emits_valid_payload S (family_det _ hS) (family_fillersOK _ hS) (family_wrapOK _ hS)
+    (family_labelsOK _ hS) (family_leafOk _ hS) (family_textStableC _ hS) (family_closable _ hS) doc f t sl hsl
+    hslv hv hattrs st h
 
 /-- `PM.C11.payloadInv_step` with its schema guards discharged for the bundled schema family -/
-theorem payloadInv_step (S : Schema) (hS : S ∈ domFamilySchemas) (D g : Nat) (st : FitState)
+theorem payloadInv_step (S : Schema) (hS : S ∈ familySchemas) (D g : Nat) (st : FitState)
     (inv : FitLoopInv S D st) (hv : VInv S D g st.frontier st.placed)
     (hu : ∀ n ∈ st.unplaced.content, S.checkNode n = true) :
     ∃ st' g', fitStep S st = .ok st' ∧ FitLoopInv S D st' ∧ VInv S D g' st'.frontier st'.placed ∧
     (∀ n ∈ st'.unplaced.content, S.checkNode n = true) :=
-  PM.C11.payloadInv_step S (family_det _ (domFamily_sub _ hS)) (family_fillersOK _ (domFamily_sub _ hS))
-    (family_wrapOK _ (domFamily_sub _ hS)) (family_labelsOK _ (domFamily_sub _ hS))
-    (family_leafOk _ (domFamily_sub _ hS)) (family_textStableC _ (domFamily_sub _ hS))
-    (family_closable _ (domFamily_sub _ hS)) D g st inv hv hu
+  PM.C11.payloadInv_step S (family_det _ hS) (family_fillersOK _ hS) (family_wrapOK _ hS) (family_labelsOK _ hS)
+    (family_leafOk _ hS) (family_textStableC _ hS) (family_closable _ hS) D g st inv hv hu
 
 /-- `PM.C11.fit_emits_valid_payload_of_inv` with its schema guards discharged for the bundled schema family -/
-theorem fit_emits_valid_payload_of_inv (S : Schema) (hS : S ∈ domFamilySchemas) (doc : Node) (f t : Nat)
+theorem fit_emits_valid_payload_of_inv (S : Schema) (hS : S ∈ familySchemas) (doc : Node) (f t : Nat)
     (sl : Slice) (hslv : openValid S sl.openStart sl.openEnd sl.content = true)
     (hattrs : S.nodeAttrsOK doc = true) (st : Step) (h : replaceStep S doc f t sl = .ok (some st))
     (hend : fitEndInv S doc f t sl ≠ some false) :
     ∃ sl', st.sliceOf = some sl' ∧ openValid S sl'.openStart sl'.openEnd sl'.content = true :=
-  PM.C11.fit_emits_valid_payload_of_inv S (family_det _ (domFamily_sub _ hS))
-    (family_fillersOK _ (domFamily_sub _ hS)) (family_leafOk _ (domFamily_sub _ hS))
-    (family_textStableC _ (domFamily_sub _ hS)) (family_closable _ (domFamily_sub _ hS)) doc f t sl hslv hattrs
-    st h hend
+  PM.C11.fit_emits_valid_payload_of_inv S (family_det _ hS) (family_fillersOK _ hS) (family_leafOk _ hS)
+    (family_textStableC _ hS) (family_closable _ hS) doc f t sl hslv hattrs st h hend
 
 /-- `PM.C11.delete_emitOK` with its schema guards discharged for the bundled schema family -/
 theorem delete_emitOK (S : Schema) (hS : S ∈ familySchemas) (doc : Node) (f t : Nat) (hv : C01.Valid S doc)
@@ -287,42 +284,36 @@ theorem replaceRange_valid_delete (S : Schema) (hS : S ∈ familySchemas) (doc d
     sl hsz cs hv hattrs hft h c hc st hst ha
 
 /-- `PM.C11.insertInline_emitOK_partial` with its schema guards discharged for the bundled schema family -/
-theorem insertInline_emitOK_partial (S : Schema) (hS : S ∈ domFamilySchemas) (doc : Node) (f t : Nat)
-    (sl : Slice) (hsl : sl.inlineLeaves S = true) (hslv : sl.closedValid S = true) (hv : C01.Valid S doc)
+theorem insertInline_emitOK_partial (S : Schema) (hS : S ∈ familySchemas) (doc : Node) (f t : Nat) (sl : Slice)
+    (hsl : sl.inlineLeaves S = true) (hslv : sl.closedValid S = true) (hv : C01.Valid S doc)
     (hattrs : S.nodeAttrsOK doc = true) (hft : f ≤ t) (st : Step) (h : replaceStep S doc f t sl = .ok (some st))
     (hpa : AroundPayload S doc st) :
     EmitOK S doc st :=
-  PM.C11.insertInline_emitOK_partial S (family_det _ (domFamily_sub _ hS))
-    (family_fillersOK _ (domFamily_sub _ hS)) (family_wrapOK _ (domFamily_sub _ hS))
-    (family_labelsOK _ (domFamily_sub _ hS)) (family_leafOk _ (domFamily_sub _ hS))
-    (family_textStableC _ (domFamily_sub _ hS)) (family_closable _ (domFamily_sub _ hS)) doc f t sl hsl hslv hv
-    hattrs hft st h hpa
+  PM.C11.insertInline_emitOK_partial S (family_det _ hS) (family_fillersOK _ hS) (family_wrapOK _ hS)
+    (family_labelsOK _ hS) (family_leafOk _ hS) (family_textStableC _ hS) (family_closable _ hS) doc f t sl hsl
+    hslv hv hattrs hft st h hpa
 
 /-- `PM.C11.fit_emitOK_of_inv_partial` with its schema guards discharged for the bundled schema family -/
-theorem fit_emitOK_of_inv_partial (S : Schema) (hS : S ∈ domFamilySchemas) (doc : Node) (f t : Nat) (sl : Slice)
+theorem fit_emitOK_of_inv_partial (S : Schema) (hS : S ∈ familySchemas) (doc : Node) (f t : Nat) (sl : Slice)
     (hwf : sl.wf = true) (hslv : openValid S sl.openStart sl.openEnd sl.content = true)
     (hattrs : S.nodeAttrsOK doc = true) (st : Step) (h : replaceStep S doc f t sl = .ok (some st))
     (hend : fitEndInv S doc f t sl ≠ some false) (hpa : AroundPayload S doc st) :
     EmitOK S doc st :=
-  PM.C11.fit_emitOK_of_inv_partial S (family_det _ (domFamily_sub _ hS))
-    (family_fillersOK _ (domFamily_sub _ hS)) (family_leafOk _ (domFamily_sub _ hS))
-    (family_textStableC _ (domFamily_sub _ hS)) (family_closable _ (domFamily_sub _ hS)) doc f t sl hwf hslv
-    hattrs st h hend hpa
+  PM.C11.fit_emitOK_of_inv_partial S (family_det _ hS) (family_fillersOK _ hS) (family_leafOk _ hS)
+    (family_textStableC _ hS) (family_closable _ hS) doc f t sl hwf hslv hattrs st h hend hpa
 
 /-- `PM.C11.insertInline_valid_partial` with its schema guards discharged for the bundled schema family -/
-theorem insertInline_valid_partial (S : Schema) (hS : S ∈ domFamilySchemas) (doc doc' : Node) (f t : Nat)
+theorem insertInline_valid_partial (S : Schema) (hS : S ∈ familySchemas) (doc doc' : Node) (f t : Nat)
     (sl : Slice) (hsl : sl.inlineLeaves S = true) (hslv : sl.closedValid S = true) (hv : C01.Valid S doc)
     (hattrs : S.nodeAttrsOK doc = true) (hft : f ≤ t) (st : Step) (h : replaceStep S doc f t sl = .ok (some st))
     (hpa : AroundPayload S doc st) (ha : S.apply st doc = .ok doc') :
     C01.Valid S doc' ∧ Kept (ftoks doc.kids) (ftoks doc'.kids) f t (textUnits (sliceToks' sl)) :=
-  PM.C11.insertInline_valid_partial S (family_det _ (domFamily_sub _ hS))
-    (family_fillersOK _ (domFamily_sub _ hS)) (family_wrapOK _ (domFamily_sub _ hS))
-    (family_labelsOK _ (domFamily_sub _ hS)) (family_leafOk _ (domFamily_sub _ hS))
-    (family_textStableC _ (domFamily_sub _ hS)) (family_closable _ (domFamily_sub _ hS)) doc doc' f t sl hsl
-    hslv hv hattrs hft st h hpa ha
+  PM.C11.insertInline_valid_partial S (family_det _ hS) (family_fillersOK _ hS) (family_wrapOK _ hS)
+    (family_labelsOK _ hS) (family_leafOk _ hS) (family_textStableC _ hS) (family_closable _ hS) doc doc' f t sl
+    hsl hslv hv hattrs hft st h hpa ha
 
 /-- `PM.C11.insertInline_total_valid_partial` with its schema guards discharged for the bundled schema family -/
-theorem insertInline_total_valid_partial (S : Schema) (hS : S ∈ domFamilySchemas) (doc : Node) (f t : Nat)
+theorem insertInline_total_valid_partial (S : Schema) (hS : S ∈ familySchemas) (doc : Node) (f t : Nat)
     (sl : Slice) (hsl : sl.inlineLeaves S = true) (hslv : sl.closedValid S = true) (hv : C01.Valid S doc)
     (hdoc : C01.IsElem doc) (hattrs : S.nodeAttrsOK doc = true) (htop : S.isTextblockO (S.tyOf doc) = false)
     (hft : f ≤ t) (ht : t ≤ fsize doc.kids) :
@@ -332,40 +323,34 @@ theorem insertInline_total_valid_partial (S : Schema) (hS : S ∈ domFamilySchem
     S.apply st doc = .error .failed ∨ S.apply st doc = .error .valueError ∨
     ∃ doc', S.apply st doc = .ok doc' ∧ C01.Valid S doc' ∧
     Kept (ftoks doc.kids) (ftoks doc'.kids) f t (textUnits (sliceToks' sl))) :=
-  PM.C11.insertInline_total_valid_partial S (family_det _ (domFamily_sub _ hS))
-    (family_fillersOK _ (domFamily_sub _ hS)) (family_wrapOK _ (domFamily_sub _ hS))
-    (family_labelsOK _ (domFamily_sub _ hS)) (family_leafOk _ (domFamily_sub _ hS))
-    (family_textStableC _ (domFamily_sub _ hS)) (family_closable _ (domFamily_sub _ hS)) doc f t sl hsl hslv hv
-    hdoc hattrs htop hft ht
+  PM.C11.insertInline_total_valid_partial S (family_det _ hS) (family_fillersOK _ hS) (family_wrapOK _ hS)
+    (family_labelsOK _ hS) (family_leafOk _ hS) (family_textStableC _ hS) (family_closable _ hS) doc f t sl hsl
+    hslv hv hdoc hattrs htop hft ht
 
 /-- `PM.C11.replace_valid_of_inv_partial` with its schema guards discharged for the bundled schema family -/
-theorem replace_valid_of_inv_partial (S : Schema) (hS : S ∈ domFamilySchemas) (doc doc' : Node) (f t : Nat)
+theorem replace_valid_of_inv_partial (S : Schema) (hS : S ∈ familySchemas) (doc doc' : Node) (f t : Nat)
     (sl : Slice) (hwf : sl.wf = true) (hslv : openValid S sl.openStart sl.openEnd sl.content = true)
     (hv : C01.Valid S doc) (hattrs : S.nodeAttrsOK doc = true) (hft : f ≤ t) (st : Step)
     (h : replaceStep S doc f t sl = .ok (some st)) (hend : fitEndInv S doc f t sl ≠ some false)
     (hpa : AroundPayload S doc st) (ha : S.apply st doc = .ok doc') :
     C01.Valid S doc' ∧ Kept (ftoks doc.kids) (ftoks doc'.kids) f t (textUnits (sliceToks' sl)) :=
-  PM.C11.replace_valid_of_inv_partial S (family_det _ (domFamily_sub _ hS))
-    (family_fillersOK _ (domFamily_sub _ hS)) (family_leafOk _ (domFamily_sub _ hS))
-    (family_textStableC _ (domFamily_sub _ hS)) (family_closable _ (domFamily_sub _ hS)) doc doc' f t sl hwf
-    hslv hv hattrs hft st h hend hpa ha
+  PM.C11.replace_valid_of_inv_partial S (family_det _ hS) (family_fillersOK _ hS) (family_leafOk _ hS)
+    (family_textStableC _ hS) (family_closable _ hS) doc doc' f t sl hwf hslv hv hattrs hft st h hend hpa ha
 
 /-- `PM.C11.replaceRange_valid_inline_partial` with its schema guards discharged for the bundled schema family -/
-theorem replaceRange_valid_inline_partial (S : Schema) (hS : S ∈ domFamilySchemas) (doc doc' : Node) (f t : Nat)
+theorem replaceRange_valid_inline_partial (S : Schema) (hS : S ∈ familySchemas) (doc doc' : Node) (f t : Nat)
     (sl : Slice) (cs : List (Nat × Nat × Slice)) (hv : C01.Valid S doc) (hattrs : S.nodeAttrsOK doc = true)
     (hft : f ≤ t) (hwf : sl.wf = true) (h : replaceRangeCalls S doc f t sl = some cs) (c : Nat × Nat × Slice)
     (hc : c ∈ cs) (hsl : c.2.2.inlineLeaves S = true) (hslv : c.2.2.closedValid S = true) (st : Step)
     (hst : replaceStep S doc c.1 c.2.1 c.2.2 = .ok (some st)) (hpa : AroundPayload S doc st)
     (ha : S.apply st doc = .ok doc') :
     C01.Valid S doc' ∧ Kept (ftoks doc.kids) (ftoks doc'.kids) f t (textUnits (sliceToks' sl)) :=
-  PM.C11.replaceRange_valid_inline_partial S (family_det _ (domFamily_sub _ hS))
-    (family_fillersOK _ (domFamily_sub _ hS)) (family_wrapOK _ (domFamily_sub _ hS))
-    (family_labelsOK _ (domFamily_sub _ hS)) (family_leafOk _ (domFamily_sub _ hS))
-    (family_textStableC _ (domFamily_sub _ hS)) (family_closable _ (domFamily_sub _ hS)) doc doc' f t sl cs hv
-    hattrs hft hwf h c hc hsl hslv st hst hpa ha
+  PM.C11.replaceRange_valid_inline_partial S (family_det _ hS) (family_fillersOK _ hS) (family_wrapOK _ hS)
+    (family_labelsOK _ hS) (family_leafOk _ hS) (family_textStableC _ hS) (family_closable _ hS) doc doc' f t sl
+    cs hv hattrs hft hwf h c hc hsl hslv st hst hpa ha
 
 /-- `PM.C11.replaceRange_valid_of_inv_partial` with its schema guards discharged for the bundled schema family -/
-theorem replaceRange_valid_of_inv_partial (S : Schema) (hS : S ∈ domFamilySchemas) (doc doc' : Node) (f t : Nat)
+theorem replaceRange_valid_of_inv_partial (S : Schema) (hS : S ∈ familySchemas) (doc doc' : Node) (f t : Nat)
     (sl : Slice) (cs : List (Nat × Nat × Slice)) (hv : C01.Valid S doc) (hattrs : S.nodeAttrsOK doc = true)
     (hft : f ≤ t) (hwf : sl.wf = true) (h : replaceRangeCalls S doc f t sl = some cs) (c : Nat × Nat × Slice)
     (hc : c ∈ cs) (hcwf : c.2.2.wf = true)
@@ -374,13 +359,12 @@ theorem replaceRange_valid_of_inv_partial (S : Schema) (hS : S ∈ domFamilySche
     (hend : fitEndInv S doc c.1 c.2.1 c.2.2 ≠ some false) (hpa : AroundPayload S doc st)
     (ha : S.apply st doc = .ok doc') :
     C01.Valid S doc' ∧ Kept (ftoks doc.kids) (ftoks doc'.kids) f t (textUnits (sliceToks' sl)) :=
-  PM.C11.replaceRange_valid_of_inv_partial S (family_det _ (domFamily_sub _ hS))
-    (family_fillersOK _ (domFamily_sub _ hS)) (family_leafOk _ (domFamily_sub _ hS))
-    (family_textStableC _ (domFamily_sub _ hS)) (family_closable _ (domFamily_sub _ hS)) doc doc' f t sl cs hv
-    hattrs hft hwf h c hc hcwf hslv st hst hend hpa ha
+  PM.C11.replaceRange_valid_of_inv_partial S (family_det _ hS) (family_fillersOK _ hS) (family_leafOk _ hS)
+    (family_textStableC _ hS) (family_closable _ hS) doc doc' f t sl cs hv hattrs hft hwf h c hc hcwf hslv st
+    hst hend hpa ha
 
 /-- `PM.C11.replaceRangeWith_valid_of_inv_partial` with its schema guards discharged for the bundled schema family -/
-theorem replaceRangeWith_valid_of_inv_partial (S : Schema) (hS : S ∈ domFamilySchemas) (doc doc' : Node)
+theorem replaceRangeWith_valid_of_inv_partial (S : Schema) (hS : S ∈ familySchemas) (doc doc' : Node)
     (f t : Nat) (node : Node) (cs : List (Nat × Nat × Slice)) (hv : C01.Valid S doc)
     (hattrs : S.nodeAttrsOK doc = true) (hft : f ≤ t) (h : replaceRangeWithCalls S doc f t node = some cs)
     (c : Nat × Nat × Slice) (hc : c ∈ cs) (hcwf : c.2.2.wf = true)
@@ -390,13 +374,12 @@ theorem replaceRangeWith_valid_of_inv_partial (S : Schema) (hS : S ∈ domFamily
     (hgap : ∀ F T G1 G2 sl' ins b, st = .replaceAround F T G1 G2 sl' ins b → t ≤ G1)
     (ha : S.apply st doc = .ok doc') :
     C01.Valid S doc' ∧ Kept (ftoks doc.kids) (ftoks doc'.kids) f t (textUnits (sliceToks' ⟨[node], 0, 0⟩)) :=
-  PM.C11.replaceRangeWith_valid_of_inv_partial S (family_det _ (domFamily_sub _ hS))
-    (family_fillersOK _ (domFamily_sub _ hS)) (family_leafOk _ (domFamily_sub _ hS))
-    (family_textStableC _ (domFamily_sub _ hS)) (family_closable _ (domFamily_sub _ hS)) doc doc' f t node cs hv
-    hattrs hft h c hc hcwf hslv st hst hend hpa hgap ha
+  PM.C11.replaceRangeWith_valid_of_inv_partial S (family_det _ hS) (family_fillersOK _ hS) (family_leafOk _ hS)
+    (family_textStableC _ hS) (family_closable _ hS) doc doc' f t node cs hv hattrs hft h c hc hcwf hslv st hst
+    hend hpa hgap ha
 
 /-- `PM.C11.replaceRangeWith_valid_inline_partial` with its schema guards discharged for the bundled schema family -/
-theorem replaceRangeWith_valid_inline_partial (S : Schema) (hS : S ∈ domFamilySchemas) (doc doc' : Node)
+theorem replaceRangeWith_valid_inline_partial (S : Schema) (hS : S ∈ familySchemas) (doc doc' : Node)
     (f t : Nat) (node : Node) (hinl : (S.nodeType (S.tyOf node)).isInline = true)
     (cs : List (Nat × Nat × Slice)) (hv : C01.Valid S doc) (hattrs : S.nodeAttrsOK doc = true) (hft : f ≤ t)
     (h : replaceRangeWithCalls S doc f t node = some cs) (c : Nat × Nat × Slice) (hc : c ∈ cs)
@@ -404,117 +387,98 @@ theorem replaceRangeWith_valid_inline_partial (S : Schema) (hS : S ∈ domFamily
     (hst : replaceStep S doc c.1 c.2.1 c.2.2 = .ok (some st)) (hpa : AroundPayload S doc st)
     (ha : S.apply st doc = .ok doc') :
     C01.Valid S doc' ∧ Kept (ftoks doc.kids) (ftoks doc'.kids) f t (textUnits (sliceToks' ⟨[node], 0, 0⟩)) :=
-  PM.C11.replaceRangeWith_valid_inline_partial S (family_det _ (domFamily_sub _ hS))
-    (family_fillersOK _ (domFamily_sub _ hS)) (family_wrapOK _ (domFamily_sub _ hS))
-    (family_labelsOK _ (domFamily_sub _ hS)) (family_leafOk _ (domFamily_sub _ hS))
-    (family_textStableC _ (domFamily_sub _ hS)) (family_closable _ (domFamily_sub _ hS)) doc doc' f t node hinl
-    cs hv hattrs hft h c hc hsl hslv st hst hpa ha
+  PM.C11.replaceRangeWith_valid_inline_partial S (family_det _ hS) (family_fillersOK _ hS) (family_wrapOK _ hS)
+    (family_labelsOK _ hS) (family_leafOk _ hS) (family_textStableC _ hS) (family_closable _ hS) doc doc' f t
+    node hinl cs hv hattrs hft h c hc hsl hslv st hst hpa ha
 
 /-- `PM.C11.aroundPayload_of_norm` with its schema guards discharged for the bundled schema family -/
-theorem aroundPayload_of_norm (S : Schema) (hS : S ∈ domFamilySchemas) (doc : Node) (f t : Nat) (req : Slice)
-    (hv : C01.Valid S doc) (hn : fnorm doc.kids = true) (st : Step)
-    (h : replaceStep S doc f t req = .ok (some st)) (hwf : StepWF st = true)
+theorem aroundPayload_of_norm (S : Schema) (hS : S ∈ familySchemas) (doc : Node) (f t : Nat) (req : Slice)
+    (hv : C01.Valid S doc) (st : Step) (h : replaceStep S doc f t req = .ok (some st)) (hwf : StepWF st = true)
     (hp : ∃ sl', st.sliceOf = some sl' ∧ openValid S sl'.openStart sl'.openEnd sl'.content = true)
     (hsn : ∀ sl', st.sliceOf = some sl' → fnorm sl'.content = true) :
     AroundPayload S doc st :=
-  PM.C11.aroundPayload_of_norm S (family_textStable _ hS) doc f t req hv hn st h hwf hp hsn
+  PM.C11.aroundPayload_of_norm S doc f t req hv st h hwf hp hsn
 
 /-- `PM.C11.insertInline_valid_of_norm` with its schema guards discharged for the bundled schema family -/
-theorem insertInline_valid_of_norm (S : Schema) (hS : S ∈ domFamilySchemas) (doc doc' : Node) (f t : Nat)
+theorem insertInline_valid_of_norm (S : Schema) (hS : S ∈ familySchemas) (doc doc' : Node) (f t : Nat)
     (sl : Slice) (hsl : sl.inlineLeaves S = true) (hslv : sl.closedValid S = true) (hv : C01.Valid S doc)
-    (hn : fnorm doc.kids = true) (hattrs : S.nodeAttrsOK doc = true) (hft : f ≤ t) (st : Step)
-    (h : replaceStep S doc f t sl = .ok (some st))
+    (hattrs : S.nodeAttrsOK doc = true) (hft : f ≤ t) (st : Step) (h : replaceStep S doc f t sl = .ok (some st))
     (hsn : ∀ F T G1 G2 sl' ins b, st = .replaceAround F T G1 G2 sl' ins b → fnorm sl'.content = true)
     (ha : S.apply st doc = .ok doc') :
     C01.Valid S doc' ∧ Kept (ftoks doc.kids) (ftoks doc'.kids) f t (textUnits (sliceToks' sl)) :=
-  PM.C11.insertInline_valid_of_norm S (family_det _ (domFamily_sub _ hS))
-    (family_fillersOK _ (domFamily_sub _ hS)) (family_wrapOK _ (domFamily_sub _ hS))
-    (family_labelsOK _ (domFamily_sub _ hS)) (family_leafOk _ (domFamily_sub _ hS))
-    (family_textStableC _ (domFamily_sub _ hS)) (family_closable _ (domFamily_sub _ hS))
-    (family_textStable _ hS) doc doc' f t sl hsl hslv hv hn hattrs hft st h hsn ha
+  PM.C11.insertInline_valid_of_norm S (family_det _ hS) (family_fillersOK _ hS) (family_wrapOK _ hS)
+    (family_labelsOK _ hS) (family_leafOk _ hS) (family_textStableC _ hS) (family_closable _ hS) doc doc' f t sl
+    hsl hslv hv hattrs hft st h hsn ha
 
 /-- `PM.C11.replace_valid_of_inv_of_norm` with its schema guards discharged for the bundled schema family -/
-theorem replace_valid_of_inv_of_norm (S : Schema) (hS : S ∈ domFamilySchemas) (doc doc' : Node) (f t : Nat)
+theorem replace_valid_of_inv_of_norm (S : Schema) (hS : S ∈ familySchemas) (doc doc' : Node) (f t : Nat)
     (sl : Slice) (hwf : sl.wf = true) (hslv : openValid S sl.openStart sl.openEnd sl.content = true)
-    (hv : C01.Valid S doc) (hn : fnorm doc.kids = true) (hattrs : S.nodeAttrsOK doc = true) (hft : f ≤ t)
-    (st : Step) (h : replaceStep S doc f t sl = .ok (some st)) (hend : fitEndInv S doc f t sl ≠ some false)
+    (hv : C01.Valid S doc) (hattrs : S.nodeAttrsOK doc = true) (hft : f ≤ t) (st : Step)
+    (h : replaceStep S doc f t sl = .ok (some st)) (hend : fitEndInv S doc f t sl ≠ some false)
     (hsn : ∀ F T G1 G2 sl' ins b, st = .replaceAround F T G1 G2 sl' ins b → fnorm sl'.content = true)
     (ha : S.apply st doc = .ok doc') :
     C01.Valid S doc' ∧ Kept (ftoks doc.kids) (ftoks doc'.kids) f t (textUnits (sliceToks' sl)) :=
-  PM.C11.replace_valid_of_inv_of_norm S (family_det _ (domFamily_sub _ hS))
-    (family_fillersOK _ (domFamily_sub _ hS)) (family_leafOk _ (domFamily_sub _ hS))
-    (family_textStableC _ (domFamily_sub _ hS)) (family_closable _ (domFamily_sub _ hS))
-    (family_textStable _ hS) doc doc' f t sl hwf hslv hv hn hattrs hft st h hend hsn ha
+  PM.C11.replace_valid_of_inv_of_norm S (family_det _ hS) (family_fillersOK _ hS) (family_leafOk _ hS)
+    (family_textStableC _ hS) (family_closable _ hS) doc doc' f t sl hwf hslv hv hattrs hft st h hend hsn ha
 
 /-- `PM.C11.insertInline_valid` with its schema guards discharged for the bundled schema family -/
-theorem insertInline_valid (S : Schema) (hS : S ∈ domFamilySchemas) (doc doc' : Node) (f t : Nat) (sl : Slice)
+theorem insertInline_valid (S : Schema) (hS : S ∈ familySchemas) (doc doc' : Node) (f t : Nat) (sl : Slice)
     (hsl : sl.inlineLeaves S = true) (hslv : sl.closedValid S = true) (hsn : fnorm sl.content = true)
-    (hv : C01.Valid S doc) (hn : fnorm doc.kids = true) (hattrs : S.nodeAttrsOK doc = true) (hft : f ≤ t)
-    (st : Step) (h : replaceStep S doc f t sl = .ok (some st)) (ha : S.apply st doc = .ok doc') :
+    (hv : C01.Valid S doc) (hattrs : S.nodeAttrsOK doc = true) (hft : f ≤ t) (st : Step)
+    (h : replaceStep S doc f t sl = .ok (some st)) (ha : S.apply st doc = .ok doc') :
     C01.Valid S doc' ∧ Kept (ftoks doc.kids) (ftoks doc'.kids) f t (textUnits (sliceToks' sl)) :=
-  PM.C11.insertInline_valid S (family_det _ (domFamily_sub _ hS)) (family_fillersOK _ (domFamily_sub _ hS))
-    (family_wrapOK _ (domFamily_sub _ hS)) (family_labelsOK _ (domFamily_sub _ hS))
-    (family_leafOk _ (domFamily_sub _ hS)) (family_textStableC _ (domFamily_sub _ hS))
-    (family_closable _ (domFamily_sub _ hS)) (family_textStable _ hS) doc doc' f t sl hsl hslv hsn hv hn hattrs
-    hft st h ha
+  PM.C11.insertInline_valid S (family_det _ hS) (family_fillersOK _ hS) (family_wrapOK _ hS)
+    (family_labelsOK _ hS) (family_leafOk _ hS) (family_textStableC _ hS) (family_closable _ hS) doc doc' f t sl
+    hsl hslv hsn hv hattrs hft st h ha
 
 /-- `PM.C11.replace_valid_of_inv` with its schema guards discharged for the bundled schema family -/
-theorem replace_valid_of_inv (S : Schema) (hS : S ∈ domFamilySchemas) (doc doc' : Node) (f t : Nat) (sl : Slice)
+theorem replace_valid_of_inv (S : Schema) (hS : S ∈ familySchemas) (doc doc' : Node) (f t : Nat) (sl : Slice)
     (hwf : sl.wf = true) (hslv : openValid S sl.openStart sl.openEnd sl.content = true)
-    (hsn : fnorm sl.content = true) (hv : C01.Valid S doc) (hn : fnorm doc.kids = true)
-    (hattrs : S.nodeAttrsOK doc = true) (hft : f ≤ t) (st : Step) (h : replaceStep S doc f t sl = .ok (some st))
-    (hend : fitEndInv S doc f t sl ≠ some false) (ha : S.apply st doc = .ok doc') :
+    (hsn : fnorm sl.content = true) (hv : C01.Valid S doc) (hattrs : S.nodeAttrsOK doc = true) (hft : f ≤ t)
+    (st : Step) (h : replaceStep S doc f t sl = .ok (some st)) (hend : fitEndInv S doc f t sl ≠ some false)
+    (ha : S.apply st doc = .ok doc') :
     C01.Valid S doc' ∧ Kept (ftoks doc.kids) (ftoks doc'.kids) f t (textUnits (sliceToks' sl)) :=
-  PM.C11.replace_valid_of_inv S (family_det _ (domFamily_sub _ hS)) (family_fillersOK _ (domFamily_sub _ hS))
-    (family_leafOk _ (domFamily_sub _ hS)) (family_textStableC _ (domFamily_sub _ hS))
-    (family_closable _ (domFamily_sub _ hS)) (family_textStable _ hS) doc doc' f t sl hwf hslv hsn hv hn hattrs
-    hft st h hend ha
+  PM.C11.replace_valid_of_inv S (family_det _ hS) (family_fillersOK _ hS) (family_leafOk _ hS)
+    (family_textStableC _ hS) (family_closable _ hS) doc doc' f t sl hwf hslv hsn hv hattrs hft st h hend ha
 
 /-- `PM.C11.fit_emits_valid_payload` with its schema guards discharged for the bundled schema family -/
-theorem fit_emits_valid_payload (S : Schema) (hS : S ∈ domFamilySchemas) (doc : Node) (f t : Nat) (sl : Slice)
+theorem fit_emits_valid_payload (S : Schema) (hS : S ∈ familySchemas) (doc : Node) (f t : Nat) (sl : Slice)
     (hloose : sl.looseValid S = true) (hv : C01.Valid S doc) (hattrs : S.nodeAttrsOK doc = true)
     (hrun : unplacedWfRun S doc f t sl = true) (st : Step) (h : replaceStep S doc f t sl = .ok (some st)) :
     ∃ sl', st.sliceOf = some sl' ∧ openValid S sl'.openStart sl'.openEnd sl'.content = true :=
-  PM.C11.fit_emits_valid_payload S (family_det _ (domFamily_sub _ hS)) (family_fillersOK _ (domFamily_sub _ hS))
-    (family_wrapOK _ (domFamily_sub _ hS)) (family_labelsOK _ (domFamily_sub _ hS))
-    (family_leafOk _ (domFamily_sub _ hS)) (family_textStableC _ (domFamily_sub _ hS))
-    (family_closable _ (domFamily_sub _ hS)) doc f t sl hloose hv hattrs hrun st h
+  PM.C11.fit_emits_valid_payload S (family_det _ hS) (family_fillersOK _ hS) (family_wrapOK _ hS)
+    (family_labelsOK _ hS) (family_leafOk _ hS) (family_textStableC _ hS) (family_closable _ hS) doc f t sl
+    hloose hv hattrs hrun st h
 
 /-- `PM.C11.payloadInv_step_gen` with its schema guards discharged for the bundled schema family -/
-theorem payloadInv_step_gen (S : Schema) (hS : S ∈ domFamilySchemas) (D g : Nat) (st : FitState)
-    (inv : InStep st) (hv : VInv S D g st.frontier st.placed) (hU : UInv S st.unplaced)
-    (hwf : st.unplaced.wf = true) (hsz : (st.unplaced.size == 0) = false) (st' : FitState)
-    (h : fitStep S st = .ok st') :
+theorem payloadInv_step_gen (S : Schema) (hS : S ∈ familySchemas) (D g : Nat) (st : FitState) (inv : InStep st)
+    (hv : VInv S D g st.frontier st.placed) (hU : UInv S st.unplaced) (hwf : st.unplaced.wf = true)
+    (hsz : (st.unplaced.size == 0) = false) (st' : FitState) (h : fitStep S st = .ok st') :
     (∃ g', VInv S D g' st'.frontier st'.placed) ∧ UInv S st'.unplaced :=
-  PM.C11.payloadInv_step_gen S (family_det _ (domFamily_sub _ hS)) (family_fillersOK _ (domFamily_sub _ hS))
-    (family_wrapOK _ (domFamily_sub _ hS)) (family_labelsOK _ (domFamily_sub _ hS))
-    (family_leafOk _ (domFamily_sub _ hS)) (family_textStableC _ (domFamily_sub _ hS))
-    (family_closable _ (domFamily_sub _ hS)) D g st inv hv hU hwf hsz st' h
+  PM.C11.payloadInv_step_gen S (family_det _ hS) (family_fillersOK _ hS) (family_wrapOK _ hS)
+    (family_labelsOK _ hS) (family_leafOk _ hS) (family_textStableC _ hS) (family_closable _ hS) D g st inv hv
+    hU hwf hsz st' h
 
 /-- `PM.C11.fit_emits_valid_payload_cut` with its schema guards discharged for the bundled schema family -/
-theorem fit_emits_valid_payload_cut (S : Schema) (hS : S ∈ domFamilySchemas) (doc : Node) (f t : Nat)
-    (src : Node) (a b : Nat) (sl : Slice) (hsrc : C01.Valid S src) (hcut : src.slice a b = .ok sl)
-    (hv : C01.Valid S doc) (hattrs : S.nodeAttrsOK doc = true) (hrun : unplacedWfRun S doc f t sl = true)
-    (st : Step) (h : replaceStep S doc f t sl = .ok (some st)) :
+theorem fit_emits_valid_payload_cut (S : Schema) (hS : S ∈ familySchemas) (doc : Node) (f t : Nat) (src : Node)
+    (a b : Nat) (sl : Slice) (hsrc : C01.Valid S src) (hcut : src.slice a b = .ok sl) (hv : C01.Valid S doc)
+    (hattrs : S.nodeAttrsOK doc = true) (hrun : unplacedWfRun S doc f t sl = true) (st : Step)
+    (h : replaceStep S doc f t sl = .ok (some st)) :
     ∃ sl', st.sliceOf = some sl' ∧ openValid S sl'.openStart sl'.openEnd sl'.content = true :=
-  PM.C11.fit_emits_valid_payload_cut S (family_det _ (domFamily_sub _ hS))
-    (family_fillersOK _ (domFamily_sub _ hS)) (family_wrapOK _ (domFamily_sub _ hS))
-    (family_labelsOK _ (domFamily_sub _ hS)) (family_leafOk _ (domFamily_sub _ hS))
-    (family_textStableC _ (domFamily_sub _ hS)) (family_closable _ (domFamily_sub _ hS)) doc f t src a b sl hsrc
-    hcut hv hattrs hrun st h
+  PM.C11.fit_emits_valid_payload_cut S (family_det _ hS) (family_fillersOK _ hS) (family_wrapOK _ hS)
+    (family_labelsOK _ hS) (family_leafOk _ hS) (family_textStableC _ hS) (family_closable _ hS) doc f t src a b
+    sl hsrc hcut hv hattrs hrun st h
 
 /-- `PM.C11.fit_replace_recorded_valid` with its schema guards discharged for the bundled schema family -/
-theorem fit_replace_recorded_valid (S : Schema) (hS : S ∈ domFamilySchemas) (doc : Node) (f t : Nat)
-    (sl : Slice) (hloose : sl.looseValid S = true) (hv : C01.Valid S doc) (hattrs : S.nodeAttrsOK doc = true)
+theorem fit_replace_recorded_valid (S : Schema) (hS : S ∈ familySchemas) (doc : Node) (f t : Nat) (sl : Slice)
+    (hloose : sl.looseValid S = true) (hv : C01.Valid S doc) (hattrs : S.nodeAttrsOK doc = true)
     (hrun : unplacedWfRun S doc f t sl = true) (F T : Nat) (sl' : Slice) (b : Bool)
     (h : replaceStep S doc f t sl = .ok (some (.replace F T sl' b))) (doc' : Node)
     (ha : S.apply (.replace F T sl' b) doc = .ok doc') :
     C01.Valid S doc' :=
-  PM.C11.fit_replace_recorded_valid S (family_det _ (domFamily_sub _ hS))
-    (family_fillersOK _ (domFamily_sub _ hS)) (family_wrapOK _ (domFamily_sub _ hS))
-    (family_labelsOK _ (domFamily_sub _ hS)) (family_leafOk _ (domFamily_sub _ hS))
-    (family_textStableC _ (domFamily_sub _ hS)) (family_closable _ (domFamily_sub _ hS)) doc f t sl hloose hv
-    hattrs hrun F T sl' b h doc' ha
+  PM.C11.fit_replace_recorded_valid S (family_det _ hS) (family_fillersOK _ hS) (family_wrapOK _ hS)
+    (family_labelsOK _ hS) (family_leafOk _ hS) (family_textStableC _ hS) (family_closable _ hS) doc f t sl
+    hloose hv hattrs hrun F T sl' b h doc' ha
 
 /-- `PM.C11.delete_recorded_valid` with its schema guards discharged for the bundled schema family -/
 theorem delete_recorded_valid (S : Schema) (hS : S ∈ familySchemas) (doc : Node) (f t : Nat)
@@ -568,5 +532,188 @@ theorem delete_never_raises_flat (S : Schema) (hS : S ∈ domFamilySchemas) (doc
   PM.C11.delete_never_raises_flat S (family_det _ (domFamily_sub _ hS))
     (family_fillersOK _ (domFamily_sub _ hS)) (family_leafOk _ (domFamily_sub _ hS)) (family_textStable _ hS)
     doc f t hv hdoc hn hattrs hft hpf hpt htr
+
+/-- `PM.C11.fit_step_returns` with its schema guards discharged for the bundled schema family -/
+theorem fit_step_returns (S : Schema) (hS : S ∈ familySchemas) (st : FitState) (hin : st.inStepB = true)
+    (hwf : st.unplaced.wf = true) (hsites : st.unplaced.sitesOk S = true) :
+    ∃ st', fitStep S st = .ok st' :=
+  PM.C11.fit_step_returns S (family_det _ hS) (family_fillersOK _ hS) (family_wrapOK _ hS)
+    (family_labelsOK _ hS) (family_textStableC _ hS) (family_closable _ hS) st hin hwf hsites
+
+/-- `PM.C11.startSite_exact` with its schema guards discharged for the bundled schema family -/
+theorem startSite_exact (S : Schema) (hS : S ∈ familySchemas) (t : TypeId) (a : Attrs) (m : Marks)
+    (kids : List Node) (oe : Int) (ht : t < S.nodes.size) :
+    (∃ r, closeNodeStart S 1 (.elem t a m kids) oe = .ok r) ↔
+    (fillBeforeTypes S (S.dfa t) 0 (S.types kids) false).isSome = true :=
+  PM.C11.startSite_exact S (family_det _ hS) (family_fillersOK _ hS) (family_textStableC _ hS)
+    (family_closable _ hS) t a m kids oe ht
+
+/-- `PM.C11.fit_no_raise_while` with its schema guards discharged for the bundled schema family -/
+theorem fit_no_raise_while (S : Schema) (hS : S ∈ familySchemas) (doc : Node) (f t : Nat) (sl : Slice)
+    (hv : C01.Valid S doc) (hattrs : S.nodeAttrsOK doc = true) (htop : S.isTextblockO (S.tyOf doc) = false)
+    (hft : f ≤ t) (ht : t ≤ fsize doc.kids) (hterm : sl.termGuard = true) (hg : sl.openPrefixOk S = true)
+    (hrun : unplacedWfWhile S doc f t sl = true) :
+    ∃ r, replaceStep S doc f t sl = .ok r :=
+  PM.C11.fit_no_raise_while S (family_det _ hS) (family_fillersOK _ hS) (family_wrapOK _ hS)
+    (family_labelsOK _ hS) (family_textStableC _ hS) (family_closable _ hS) doc f t sl hv hattrs htop hft ht
+    hterm hg hrun
+
+/-- `PM.C11.fit_no_raise` with its schema guards discharged for the bundled schema family -/
+theorem fit_no_raise (S : Schema) (hS : S ∈ familySchemas) (doc : Node) (f t : Nat) (sl : Slice)
+    (hv : C01.Valid S doc) (hattrs : S.nodeAttrsOK doc = true) (htop : S.isTextblockO (S.tyOf doc) = false)
+    (hft : f ≤ t) (ht : t ≤ fsize doc.kids) (hwf : sl.wf = true) (hg : sl.openPrefixOk S = true)
+    (hst : sl.stableOk S = true) :
+    ∃ r, replaceStep S doc f t sl = .ok r :=
+  PM.C11.fit_no_raise S (family_det _ hS) (family_fillersOK _ hS) (family_wrapOK _ hS) (family_labelsOK _ hS)
+    (family_textStableC _ hS) (family_closable _ hS) doc f t sl hv hattrs htop hft ht hwf hg hst
+
+/-- `PM.C11.fit_no_raise_emits` with its schema guards discharged for the bundled schema family -/
+theorem fit_no_raise_emits (S : Schema) (hS : S ∈ familySchemas) (doc : Node) (f t : Nat) (sl : Slice)
+    (hv : C01.Valid S doc) (hattrs : S.nodeAttrsOK doc = true) (htop : S.isTextblockO (S.tyOf doc) = false)
+    (hft : f ≤ t) (ht : t ≤ fsize doc.kids) (hwf : sl.wf = true) (hg : sl.openPrefixOk S = true)
+    (hst : sl.stableOk S = true) (hloose : sl.looseValid S = true) :
+    replaceStep S doc f t sl = .ok none ∨
+    ∃ st, replaceStep S doc f t sl = .ok (some st) ∧ StepWF st = true ∧
+    (∀ F T G1 G2 sl' ins b, st = .replaceAround F T G1 G2 sl' ins b → aroundShape F T G1 G2 sl' ins = true) ∧
+    (∃ sl', st.sliceOf = some sl' ∧ openValid S sl'.openStart sl'.openEnd sl'.content = true) ∧
+    ((∀ F T G1 G2 sl' ins b, st = .replaceAround F T G1 G2 sl' ins b →
+    noText ((sliceToks' sl').drop ins) = true) → respects (ftoks doc.kids) f t sl st = true) :=
+  PM.C11.fit_no_raise_emits S (family_det _ hS) (family_fillersOK _ hS) (family_wrapOK _ hS)
+    (family_labelsOK _ hS) (family_textStableC _ hS) (family_closable _ hS) (family_leafOk _ hS) doc f t sl hv
+    hattrs htop hft ht hwf hg hst hloose
+
+/-- `PM.C11.fit_raises_only_at_sites` with its schema guards discharged for the bundled schema family -/
+theorem fit_raises_only_at_sites (S : Schema) (hS : S ∈ familySchemas) (doc : Node) (f t : Nat) (sl : Slice)
+    (hv : C01.Valid S doc) (hattrs : S.nodeAttrsOK doc = true) (htop : S.isTextblockO (S.tyOf doc) = false)
+    (hft : f ≤ t) (ht : t ≤ fsize doc.kids) (h : replaceStep S doc f t sl = .error .raises) :
+    (∃ rf st0 st', doc.resolve f = some rf ∧ fitInit S rf sl = .ok st0 ∧ FitReach S st0 st' ∧
+    (st'.unplaced.size == 0) = false ∧ (st'.unplaced.wf = false ∨ st'.unplaced.sitesOk S = false)) ∧
+    (∃ w a b, requestBadState S doc f t sl = some (w, a, b) ∧ (w && a && b) = false) :=
+  PM.C11.fit_raises_only_at_sites S (family_det _ hS) (family_fillersOK _ hS) (family_wrapOK _ hS)
+    (family_labelsOK _ hS) (family_textStableC _ hS) (family_closable _ hS) doc f t sl hv hattrs htop hft ht h
+
+/-- `PM.C11.delete_applies` with its schema guards discharged for the bundled schema family -/
+theorem delete_applies (S : Schema) (hS : S ∈ familySchemas) (doc : Node) (f t : Nat) (hv : C01.Valid S doc)
+    (hdoc : C01.IsElem doc) (hn : fnorm doc.kids = true) (hattrs : S.nodeAttrsOK doc = true)
+    (hhc : highClosedKids doc.kids = true) (hft : f ≤ t) (hpf : pairAligned doc f = true)
+    (hpt : pairAligned doc t = true) (st : Step) (h : replaceStep S doc f t Slice.empty = .ok (some st)) :
+    ∃ doc', S.apply st doc = .ok doc' :=
+  PM.C11.delete_applies S (family_det _ hS) (family_fillersOK _ hS) (family_leafOk _ hS) (family_closable _ hS)
+    (family_textStableC _ hS) (family_textAbsorb _ hS) (family_joinCompat _ hS) (family_reopenOK _ hS)
+    (family_inlineUniform _ hS) doc f t hv hdoc hn hattrs hhc hft hpf hpt st h
+
+/-- `PM.C11.delete_never_raises` with its schema guards discharged for the bundled schema family -/
+theorem delete_never_raises (S : Schema) (hS : S ∈ familySchemas) (doc : Node) (f t : Nat)
+    (hv : C01.Valid S doc) (hdoc : C01.IsElem doc) (hn : fnorm doc.kids = true)
+    (hattrs : S.nodeAttrsOK doc = true) (hhc : highClosedKids doc.kids = true)
+    (htop : S.isTextblockO (S.tyOf doc) = false) (hft : f ≤ t) (ht : t ≤ fsize doc.kids)
+    (hpf : pairAligned doc f = true) (hpt : pairAligned doc t = true) :
+    replaceStep S doc f t Slice.empty = .ok none ∨
+    ∃ st doc', replaceStep S doc f t Slice.empty = .ok (some st) ∧ S.apply st doc = .ok doc' ∧ C01.Valid S doc' ∧
+    Kept (ftoks doc.kids) (ftoks doc'.kids) f t [] ∧
+    textUnits (ftoks doc'.kids) = textUnits ((ftoks doc.kids).take f) ++ textUnits ((ftoks doc.kids).drop t) :=
+  PM.C11.delete_never_raises S (family_det _ hS) (family_fillersOK _ hS) (family_leafOk _ hS)
+    (family_closable _ hS) (family_textStableC _ hS) (family_textAbsorb _ hS) (family_joinCompat _ hS)
+    (family_reopenOK _ hS) (family_inlineUniform _ hS) doc f t hv hdoc hn hattrs hhc htop hft ht hpf hpt
+
+/-- `PM.C11.deleteRange_applies` with its schema guards discharged for the bundled schema family -/
+theorem deleteRange_applies (S : Schema) (hS : S ∈ familySchemas) (doc : Node) (f t : Nat)
+    (hv : C01.Valid S doc) (hdoc : C01.IsElem doc) (hn : fnorm doc.kids = true)
+    (hattrs : S.nodeAttrsOK doc = true) (hhc : highClosedKids doc.kids = true) (hft : f ≤ t)
+    (ht : t ≤ fsize doc.kids) (hpf : pairAligned doc f = true) (hpt : pairAligned doc t = true) (st : Step)
+    (h : deleteRangeStep S doc f t = .ok (some st)) :
+    ∃ doc', S.apply st doc = .ok doc' :=
+  PM.C11.deleteRange_applies S (family_det _ hS) (family_fillersOK _ hS) (family_leafOk _ hS)
+    (family_closable _ hS) (family_textStableC _ hS) (family_textAbsorb _ hS) (family_joinCompat _ hS)
+    (family_reopenOK _ hS) (family_inlineUniform _ hS) doc f t hv hdoc hn hattrs hhc hft ht hpf hpt st h
+
+/-- `PM.C11.deleteRange_never_raises` with its schema guards discharged for the bundled schema family -/
+theorem deleteRange_never_raises (S : Schema) (hS : S ∈ familySchemas) (doc : Node) (f t : Nat)
+    (hv : C01.Valid S doc) (hdoc : C01.IsElem doc) (hn : fnorm doc.kids = true)
+    (hattrs : S.nodeAttrsOK doc = true) (hhc : highClosedKids doc.kids = true)
+    (htop : S.isTextblockO (S.tyOf doc) = false) (hft : f ≤ t) (ht : t ≤ fsize doc.kids)
+    (hpf : pairAligned doc f = true) (hpt : pairAligned doc t = true) :
+    deleteRangeStep S doc f t = .ok none ∨
+    ∃ st doc', deleteRangeStep S doc f t = .ok (some st) ∧ S.apply st doc = .ok doc' ∧ C01.Valid S doc' ∧
+    Kept (ftoks doc.kids) (ftoks doc'.kids) f t [] ∧
+    textUnits (ftoks doc'.kids) = textUnits ((ftoks doc.kids).take f) ++ textUnits ((ftoks doc.kids).drop t) :=
+  PM.C11.deleteRange_never_raises S (family_det _ hS) (family_fillersOK _ hS) (family_leafOk _ hS)
+    (family_closable _ hS) (family_textStableC _ hS) (family_textAbsorb _ hS) (family_joinCompat _ hS)
+    (family_reopenOK _ hS) (family_inlineUniform _ hS) doc f t hv hdoc hn hattrs hhc htop hft ht hpf hpt
+
+/-- `PM.C11.replaceRange_delete_applies` with its schema guards discharged for the bundled schema family -/
+theorem replaceRange_delete_applies (S : Schema) (hS : S ∈ familySchemas) (doc : Node) (f t : Nat) (sl : Slice)
+    (hsz : (sl.size == 0) = true) (cs : List (Nat × Nat × Slice)) (hv : C01.Valid S doc) (hdoc : C01.IsElem doc)
+    (hn : fnorm doc.kids = true) (hattrs : S.nodeAttrsOK doc = true) (hhc : highClosedKids doc.kids = true)
+    (hft : f ≤ t) (ht : t ≤ fsize doc.kids) (hpf : pairAligned doc f = true) (hpt : pairAligned doc t = true)
+    (h : replaceRangeCalls S doc f t sl = some cs) (c : Nat × Nat × Slice) (hc : c ∈ cs) (st : Step)
+    (hst : replaceStep S doc c.1 c.2.1 c.2.2 = .ok (some st)) :
+    ∃ doc', S.apply st doc = .ok doc' :=
+  PM.C11.replaceRange_delete_applies S (family_det _ hS) (family_fillersOK _ hS) (family_leafOk _ hS)
+    (family_closable _ hS) (family_textStableC _ hS) (family_textAbsorb _ hS) (family_joinCompat _ hS)
+    (family_reopenOK _ hS) (family_inlineUniform _ hS) doc f t sl hsz cs hv hdoc hn hattrs hhc hft ht hpf hpt h
+    c hc st hst
+
+/-- `PM.C11.trivialFit_replace_applies` with its schema guards discharged for the bundled schema family -/
+theorem trivialFit_replace_applies (S : Schema) (hS : S ∈ familySchemas) (doc : Node) (f t : Nat) (sl : Slice)
+    (hv : C01.Valid S doc) (hdoc : C01.IsElem doc) (hn : fnorm doc.kids = true) (hsn : fnorm sl.content = true)
+    (hft : f ≤ t) (hpf : pairAligned doc f = true) (hpt : pairAligned doc t = true)
+    (htr : fitsTriviallyO S doc f t sl = some true) :
+    ∃ doc', S.apply (.replace f t sl false) doc = .ok doc' :=
+  PM.C11.trivialFit_replace_applies S (family_textStableC _ hS) (family_textAbsorb _ hS) doc f t sl hv hdoc hn
+    hsn hft hpf hpt htr
+
+/-- `PM.C11.replace_never_raises_flat` with its schema guards discharged for the bundled schema family -/
+theorem replace_never_raises_flat (S : Schema) (hS : S ∈ familySchemas) (doc : Node) (f t : Nat) (sl : Slice)
+    (hv : C01.Valid S doc) (hdoc : C01.IsElem doc) (hn : fnorm doc.kids = true) (hsn : fnorm sl.content = true)
+    (hft : f ≤ t) (hpf : pairAligned doc f = true) (hpt : pairAligned doc t = true)
+    (hne : ¬ (f = t ∧ sl.size = 0)) (htr : fitsTriviallyO S doc f t sl = some true) :
+    ∃ doc', replaceStep S doc f t sl = .ok (some (.replace f t sl false)) ∧
+    S.apply (.replace f t sl false) doc = .ok doc' :=
+  PM.C11.replace_never_raises_flat S (family_textStableC _ hS) (family_textAbsorb _ hS) doc f t sl hv hdoc hn
+    hsn hft hpf hpt hne htr
+
+/-- `PM.C11.insertInline_never_raises_flat` with its schema guards discharged for the bundled schema family -/
+theorem insertInline_never_raises_flat (S : Schema) (hS : S ∈ familySchemas) (doc : Node) (f t : Nat)
+    (sl : Slice) (hsl : sl.inlineLeaves S = true) (hslv : sl.closedValid S = true)
+    (hsn : fnorm sl.content = true) (hv : C01.Valid S doc) (hdoc : C01.IsElem doc) (hn : fnorm doc.kids = true)
+    (hattrs : S.nodeAttrsOK doc = true) (hft : f ≤ t) (hpf : pairAligned doc f = true)
+    (hpt : pairAligned doc t = true) (hne : ¬ (f = t ∧ sl.size = 0))
+    (htr : fitsTriviallyO S doc f t sl = some true) :
+    ∃ doc', replaceStep S doc f t sl = .ok (some (.replace f t sl false)) ∧
+    S.apply (.replace f t sl false) doc = .ok doc' ∧ C01.Valid S doc' ∧
+    Kept (ftoks doc.kids) (ftoks doc'.kids) f t (textUnits (sliceToks' sl)) :=
+  PM.C11.insertInline_never_raises_flat S (family_det _ hS) (family_fillersOK _ hS) (family_wrapOK _ hS)
+    (family_labelsOK _ hS) (family_leafOk _ hS) (family_textStableC _ hS) (family_closable _ hS)
+    (family_textAbsorb _ hS) doc f t sl hsl hslv hsn hv hdoc hn hattrs hft hpf hpt hne htr
+
+/-- `PM.C11.replace_applies_direct` with its schema guards discharged for the bundled schema family -/
+theorem replace_applies_direct (S : Schema) (hS : S ∈ familySchemas) (doc : Node) (f t : Nat) (sl : Slice)
+    (hv : C01.Valid S doc) (hdoc : C01.IsElem doc) (hn : fnorm doc.kids = true)
+    (hattrs : S.nodeAttrsOK doc = true) (hhc : highClosedKids doc.kids = true) (hft : f ≤ t)
+    (hpf : pairAligned doc f = true) (hpt : pairAligned doc t = true) (hdir : directFitB S doc f sl = true)
+    (hslv : sl.closedValid S = true) (hsn : fnorm sl.content = true) (hshc : highClosedKids sl.content = true)
+    (st : Step) (h : replaceStep S doc f t sl = .ok (some st)) :
+    ∃ doc', S.apply st doc = .ok doc' :=
+  PM.C11.replace_applies_direct S (family_det _ hS) (family_fillersOK _ hS) (family_leafOk _ hS)
+    (family_closable _ hS) (family_textStableC _ hS) (family_textAbsorb _ hS) (family_joinCompat _ hS)
+    (family_reopenOK _ hS) (family_inlineUniform _ hS) doc f t sl hv hdoc hn hattrs hhc hft hpf hpt hdir hslv
+    hsn hshc st h
+
+/-- `PM.C11.insertInline_never_raises_direct_partial` with its schema guards discharged for the bundled schema family -/
+theorem insertInline_never_raises_direct_partial (S : Schema) (hS : S ∈ familySchemas) (doc : Node) (f t : Nat)
+    (sl : Slice) (hsl : sl.inlineLeaves S = true) (hslv : sl.closedValid S = true)
+    (hsn : fnorm sl.content = true) (hshc : highClosedKids sl.content = true) (hv : C01.Valid S doc)
+    (hdoc : C01.IsElem doc) (hn : fnorm doc.kids = true) (hattrs : S.nodeAttrsOK doc = true)
+    (hhc : highClosedKids doc.kids = true) (htop : S.isTextblockO (S.tyOf doc) = false) (hft : f ≤ t)
+    (ht : t ≤ fsize doc.kids) (hpf : pairAligned doc f = true) (hpt : pairAligned doc t = true)
+    (hdir : directFitB S doc f sl = true) :
+    replaceStep S doc f t sl = .ok none ∨
+    ∃ st doc', replaceStep S doc f t sl = .ok (some st) ∧ S.apply st doc = .ok doc' ∧ C01.Valid S doc' ∧
+    Kept (ftoks doc.kids) (ftoks doc'.kids) f t (textUnits (sliceToks' sl)) :=
+  PM.C11.insertInline_never_raises_direct_partial S (family_det _ hS) (family_fillersOK _ hS)
+    (family_wrapOK _ hS) (family_labelsOK _ hS) (family_leafOk _ hS) (family_textStableC _ hS)
+    (family_closable _ hS) (family_textAbsorb _ hS) (family_joinCompat _ hS) (family_reopenOK _ hS)
+    (family_inlineUniform _ hS) doc f t sl hsl hslv hsn hshc hv hdoc hn hattrs hhc htop hft ht hpf hpt hdir
 
 end PM.Family.C11
